@@ -469,6 +469,24 @@ func c17Orient(r *engine.Run, g geom.Geometry) {
 	if d := refcodec.Diff(refcodec.Describe(ccw), refcodec.Describe(cw.ForceCCW())); d != "" {
 		bad("ForceCCW.afterForceCW", d)
 	}
+	// the same through the concrete types' own methods (they have their own already-oriented shortcut)
+	var ccw2, cw2 geom.Geometry
+	switch g.Type() {
+	case geom.TypePolygon:
+		cw2, ccw2 = g.MustAsPolygon().ForceCW().AsGeometry(), g.MustAsPolygon().ForceCCW().AsGeometry()
+	case geom.TypeMultiPolygon:
+		cw2, ccw2 = g.MustAsMultiPolygon().ForceCW().AsGeometry(), g.MustAsMultiPolygon().ForceCCW().AsGeometry()
+	case geom.TypeGeometryCollection:
+		cw2, ccw2 = g.MustAsGeometryCollection().ForceCW().AsGeometry(), g.MustAsGeometryCollection().ForceCCW().AsGeometry()
+	default:
+		return
+	}
+	if d := refcodec.Diff(refcodec.Describe(cw), refcodec.Describe(cw2)); d != "" {
+		bad("ForceCW.concreteTypeDiffersFromGeometry", d)
+	}
+	if d := refcodec.Diff(refcodec.Describe(ccw), refcodec.Describe(ccw2)); d != "" {
+		bad("ForceCCW.concreteTypeDiffersFromGeometry", d)
+	}
 }
 
 func c17Main(r *engine.Run) {
